@@ -101,7 +101,7 @@ specs = {
          "all sequences to length 3 (quick) / 4 (thorough) over {ok, callback fails, weak key, callback selects inadmissible key/alg, unsigned, error_clear} + random longer ones; each generate compared with a fresh identically configured builder", False),
     ])'''),
  "c14": dict(doc="C14 -- error reporting contract (checker and value parts).",
-   mods=["Jwt.Props.C14"], files=["Jwt/Props/C14.lean"], gen=0,
+   mods=["Jwt.Props.C14"], files=["Jwt/Props/C14.lean"], gen=1,
    level="Lean theorems: verify returns non-zero iff the flag is set afterwards, flag => message, success => clean, from every prior state; setkey refusal flags with message; generate returns NULL iff the flag is set with a message. Tied to the code by every failure cause x prior error state (reuse sequences) and by the C14 contract checked on every verify operation of the matrix.",
    assume=[],
    body='''    F.run_suites(ctx, model_ok, deep, [
